@@ -428,7 +428,7 @@ FUNCTIONS['_XLFN.CONCATENATE'] = FUNCTIONS['CONCATENATE'] = wrap_ufunc(
 
 def xtextjoin(delimiter, ignore_empty, text, *args):
     raise_errors(delimiter, ignore_empty, text, *args)
-
+    ignore_empty = replace_empty(next(flatten(ignore_empty, None)), False)
     if ignore_empty:
         it = (flatten((text,) + args, is_not_empty))
     else:
